@@ -603,6 +603,12 @@ def c18(prop, tier, seed):
         lst, metas = orc.produce(os.path.join(wd, "pairs"), seed, n)
         r, obs = run_dump(b, lst, wd, "dump", seed, tier, prop)
         res.merge(r)
+        # pairs that differ only in WHERE the prefix of an extension attribute is declared (root vs. local)
+        lst2, metas2 = orc.produce_decl(os.path.join(wd, "decl"), seed, max(200, n // 4))
+        r2, obs2 = run_dump(b, lst2, wd, "dumpdecl", seed, tier, prop)
+        res.merge(r2)
+        obs.update(obs2)
+        metas = metas + metas2
         compared = 0
         for m in metas:
             if m["base"] not in obs or m["var"] not in obs:
@@ -635,7 +641,7 @@ def c18(prop, tier, seed):
     finally:
         cleanup(wd)
     rule = ("(a) scenes encoded twice with the same layout by the independent encoder: once plain, once with 1-5 elements of a foreign namespace inserted at 14 kinds of sites outside prototypes (before/after/between standard siblings at root, data3D, point cloud and image level), with local names equal to standard names (52 names) or random, as leaves of every type, vectors, structures and structures mimicking whole standard subtrees, in three namespace forms (prefix declared on the root, prefix declared locally, default namespace redeclared on the element), plus foreign attributes - also named like standard attributes (fileOffset, length, recordCount, type ...) in front of or behind the standard ones - on the root and on standard elements; the reader's dumps (minus XML text, header lengths, extension list) must be identical; "
-            "(b) writer programs whose prototypes carry extension attributes over all accepted names and namespaces, half of them named like standard attributes; prototype, values and all standard descriptors must read back unchanged; non-trivial = pair compared / program read back; distinct = distinct (site, name class, element kind) cells + pairs")
+            "(a2) pairs that differ only in where the prefix of an extension attribute is declared (root / vectorChild / points / prototype / the record itself); (b) writer programs whose prototypes carry extension attributes over all accepted names and namespaces, half of them named like standard attributes; prototype, values and all standard descriptors must read back unchanged; non-trivial = pair compared / program read back; distinct = distinct (site, name class, element kind) cells + pairs")
     distinct = len([k for k in cover if k.startswith("site:")]) + res.stats.get("pairs_compared", 0)
     extra = {"pairs_compared": res.stats.get("pairs_compared", 0), "insertion_cells": len([k for k in cover if k.startswith("site:")]), "ext_attr_programs": res.stats.get("programs", 0), "ext_attrs_with_standard_names": res.cover.get("ext-attr:standard-name", 0), "ext_attrs_other": res.cover.get("ext-attr:other-name", 0)}
     assumptions = ["insertions are well-formed and carry a type attribute like every E57 element", "two prefixes bound to one namespace URI are not generated (same XML namespace)", "the extension list and the XML text legitimately change with an insertion and are excluded"]
@@ -737,14 +743,30 @@ def c20(prop, tier, seed):
                 cover["e57_inputs:" + kind] = cover.get("e57_inputs:" + kind, 0) + 1
                 for rule, text in problems:
                     add(rule, f"{kind} file {os.path.basename(f)}: {text}", 0)
-        res.stats["tool_runs"] = len(jobs) * 2 + len(allf) * 3
+        # check-crc in folder mode: intact / damaged files mixed in several orders
+        nfold = 12 if tier == "quick" else 200
+        small = [f for f in files if os.path.getsize(f) <= 16384][:60]
+        small_bad = [f for f in damaged if os.path.getsize(f) <= 16384][:60]
+        fjobs = []
+        for k in range(nfold):
+            ng = rr.randrange(0, 4)
+            nb = rr.randrange(0, 3) if k % 4 else 0
+            if not small or (nb and not small_bad):
+                continue
+            fjobs.append((k, [rr.choice(small) for _ in range(ng)], [rr.choice(small_bad) for _ in range(nb)]))
+        with ThreadPoolExecutor(NCPU) as ex:
+            for (k, g, bd), problems in zip(fjobs, ex.map(lambda j: orc.check_crc_folder(tools, wd, j[0], j[1], j[2], random.Random(seed * 97 + j[0])), fjobs)):
+                cover["check_crc_folder:%d-good-%d-bad" % (len(g), len(bd))] = cover.get("check_crc_folder:%d-good-%d-bad" % (len(g), len(bd)), 0) + 1
+                for rule, text in problems:
+                    add(rule, text, k)
+        res.stats["tool_runs"] = len(jobs) * 2 + len(allf) * 3 + 3 * len(fjobs)
         res.stats["e57_files"] = len(allf)
         res.cover.update(cover)
         res.samples = [{"xyz_file": j[0], "lines": j[1], "colour_sweep": j[2]} for j in jobs[:2]] + [{"e57_file": os.path.basename(f)} for f in allf[:2]]
     finally:
         cleanup(wd)
     rule = ("the five tools are built from the workspace and run as child processes. XYZ files (0..20000 lines; single-space separated; coordinates = random finite f32 bit patterns, extremes, subnormals, +-0 printed with 9 significant digits; colours incl. a sweep over all 256 values; extra columns, leading space, blank and short lines) go through e57-from-xyz | e57-to-xyz and must come back numerically unchanged and in order; "
-            "E57 files from the independent encoder and from the crate's writer, intact and with one flipped bit: e57-check-crc's exit status must equal the verdict of the independent CRC, e57-extract-xml's stdout must equal the XML section located by the independent decoder, e57-unpack's metadata.xml / CSV values / image files must equal what the library reports (harness observation log); non-trivial = tool run judged; distinct = distinct input files")
+            "E57 files from the independent encoder and from the crate's writer, intact and with one flipped bit: e57-check-crc's exit status must equal the verdict of the independent CRC (single files, and folders mixing intact and damaged files in several directory orders), e57-extract-xml's stdout must equal the XML section located by the independent decoder, e57-unpack's metadata.xml / CSV values / image files must equal what the library reports (harness observation log); non-trivial = tool run judged; distinct = distinct input files")
     assumptions = ["XYZ lines with fewer than six columns are skipped (documented); colour is columns 4-6", "check-crc is only run on files of whole-page size", "CSV numbers are compared numerically with the exact bit patterns (textual form is the tools' choice)"]
     extra = {"xyz_points_compared": res.stats.get("xyz_points_compared", 0), "colour_values_covered": cover.get("colour_values_covered", 0), "tool_runs": res.stats.get("tool_runs", 0), "e57_inputs": {k[11:]: v for k, v in cover.items() if k.startswith("e57_inputs:")}}
     return finish(prop, tier, seed, level(prop), res, rule, res.stats.get("xyz_runs", 0) + res.stats.get("e57_files", 0), res.stats.get("tool_runs", 0), assumptions, t0, extra)
